@@ -26,7 +26,7 @@ func replayStreamArchive(dir string, items []sItem, recTime bool, zero int) (out
 		rt.Fatalf("c18: StreamWriter: %v", err)
 	}
 	for _, it := range items {
-		p := edge.NewPointMessage(it.name, it.db, it.rp, models.Dimensions{}, models.Fields(it.fields), models.Tags(it.tags), rt.DefaultTime.T(it.t))
+		p := edge.NewPointMessage(it.name, it.db, it.rp, models.Dimensions{}, models.Fields(it.fields), models.Tags(it.tags), curTM.T(it.t))
 		if err := kapacitor.WritePointForRecording(w, p, "n"); err != nil {
 			rt.Fatalf("c18: record: %v", err)
 		}
@@ -37,7 +37,7 @@ func replayStreamArchive(dir string, items []sItem, recTime bool, zero int) (out
 		rt.Fatalf("c18: StreamReader: %v", err)
 	}
 	col := &streamCol{}
-	errC := kapacitor.ReplayStreamFromIO(&fixedClock{rt.DefaultTime.T(zero)}, rd, col, recTime, "n")
+	errC := kapacitor.ReplayStreamFromIO(&fixedClock{curTM.T(zero)}, rd, col, recTime, "n")
 	select {
 	case err := <-errC:
 		if err != nil {
@@ -82,9 +82,9 @@ func replayBatchArchive(dir string, sources [][]bItem, recTime bool, zero int) (
 		for _, it := range items {
 			pts := make([]edge.BatchPointMessage, len(it.pts))
 			for k, p := range it.pts {
-				pts[k] = edge.NewBatchPointMessage(models.Fields(p.fields), models.Tags(p.tags), rt.DefaultTime.T(p.t))
+				pts[k] = edge.NewBatchPointMessage(models.Fields(p.fields), models.Tags(p.tags), curTM.T(p.t))
 			}
-			begin := edge.NewBeginBatchMessage(it.name, models.Tags(it.gtags), it.byName, rt.DefaultTime.T(it.tmax), len(pts))
+			begin := edge.NewBeginBatchMessage(it.name, models.Tags(it.gtags), it.byName, curTM.T(it.tmax), len(pts))
 			begin.SetDimensions(models.Dimensions{ByName: it.byName, TagNames: it.dims})
 			if err := kapacitor.WriteBatchForRecording(w, edge.NewBufferedBatchMessage(begin, pts, edge.NewEndBatchMessage())); err != nil {
 				rt.Fatalf("c18: WriteBatchForRecording: %v", err)
@@ -106,7 +106,7 @@ func replayBatchArchive(dir string, sources [][]bItem, recTime bool, zero int) (
 	}
 	rcs := make([]io.ReadCloser, len(readers))
 	copy(rcs, readers)
-	errC := kapacitor.ReplayBatchFromIO(&fixedClock{rt.DefaultTime.T(zero)}, rcs, bcs, recTime)
+	errC := kapacitor.ReplayBatchFromIO(&fixedClock{curTM.T(zero)}, rcs, bcs, recTime)
 	select {
 	case err := <-errC:
 		if err != nil {
